@@ -135,3 +135,85 @@ pub fn convert<O: Model, N: Model>(o: &O, new_desc_json: &str) -> N {
     let t: serde_json::Value = serde_json::from_str(new_desc_json).expect("descriptor json");
     N::from_model(&conv_mv(&o.to_model(), &t))
 }
+
+/// Projects the serde JSON of a real `savefile::Schema` onto the uniform schema node of spec/Schema.tla
+/// [k, s, n, ts, sz, al, off, lay, er].  Purely syntactic.
+pub fn schema_node(v: &serde_json::Value) -> serde_json::Value {
+    use serde_json::{json, Value};
+    fn node(k: &str, s: &str, n: i64, ts: Vec<Value>) -> Value {
+        json!({"k": k, "s": s, "n": n, "ts": ts, "sz": -1, "al": -1, "off": -1, "lay": "", "er": false})
+    }
+    fn opt(v: &Value) -> i64 {
+        v.as_i64().unwrap_or(-1)
+    }
+    fn fields(fs: &Value) -> Vec<Value> {
+        fs.as_array()
+            .unwrap()
+            .iter()
+            .map(|f| {
+                let mut n = schema_node(&f["value"]);
+                n["off"] = json!(opt(&f["offset"]));
+                n
+            })
+            .collect()
+    }
+    match v {
+        Value::String(s) => match s.as_str() {
+            "Undefined" => node("undefined", "", 0, vec![]),
+            "ZeroSize" => node("zero", "", 0, vec![]),
+            "Str" => node("str", "", 0, vec![]),
+            "StdIoError" => node("ioerror", "", 0, vec![]),
+            "UninitSlice" => node("other", "UninitSlice", 0, vec![]),
+            "UtcTimestamp" => node("utc", "", 0, vec![]),
+            other => node("other", other, 0, vec![]),
+        },
+        Value::Object(m) => {
+            let (tag, body) = m.iter().next().unwrap();
+            match tag.as_str() {
+                "Struct" => {
+                    let mut n = node("struct", body["dbg_name"].as_str().unwrap(), 0, fields(&body["fields"]));
+                    n["sz"] = json!(opt(&body["size"]));
+                    n["al"] = json!(opt(&body["alignment"]));
+                    n
+                }
+                "Enum" => {
+                    let vars = body["variants"]
+                        .as_array()
+                        .unwrap()
+                        .iter()
+                        .map(|va| node("variant", va["name"].as_str().unwrap(), va["discriminant"].as_i64().unwrap(), fields(&va["fields"])))
+                        .collect();
+                    let mut n = node("enum", body["dbg_name"].as_str().unwrap(), body["discriminant_size"].as_i64().unwrap(), vars);
+                    n["sz"] = json!(opt(&body["size"]));
+                    n["al"] = json!(opt(&body["alignment"]));
+                    n["er"] = json!(body["has_explicit_repr"].as_bool().unwrap());
+                    n
+                }
+                "Primitive" => match body {
+                    Value::String(p) => node("prim", p.trim_start_matches("schema_"), 0, vec![]),
+                    Value::Object(pm) => {
+                        let (pt, lay) = pm.iter().next().unwrap();
+                        let mut n = node("prim", pt.trim_start_matches("schema_"), 0, vec![]);
+                        n["lay"] = json!(lay.as_str().unwrap_or(""));
+                        n
+                    }
+                    _ => node("other", "prim?", 0, vec![]),
+                },
+                "Vector" => {
+                    let mut n = node("vector", "", 0, vec![schema_node(&body[0])]);
+                    n["lay"] = json!(body[1].as_str().unwrap_or(""));
+                    n
+                }
+                "Array" => node("array", "", body["count"].as_i64().unwrap(), vec![schema_node(&body["item_type"])]),
+                "SchemaOption" => node("option", "", 0, vec![schema_node(body)]),
+                "Custom" => node("custom", body.as_str().unwrap_or(""), 0, vec![]),
+                "Boxed" => node("boxed", "", 0, vec![schema_node(body)]),
+                "Slice" => node("slice", "", 0, vec![schema_node(body)]),
+                "Reference" => node("ref", "", 0, vec![schema_node(body)]),
+                "Recursion" => node("recursion", "", body.as_i64().unwrap_or(0), vec![]),
+                other => node("other", other, 0, vec![]),
+            }
+        }
+        _ => node("other", "?", 0, vec![]),
+    }
+}
